@@ -363,9 +363,61 @@ func propOwnVariants(c *Ctx) {
 	}
 }
 
+// a host value that is none of the supported scalar / list types is held as an Object and handed back UNCHANGED - pointers to
+// scalars included (the same pointer, not a copy of what it points to; a typed nil pointer stays one)
+func propHostObjects(c *Ctx) {
+	i, s, b, f, tm := 7, "x", true, 1.5, time.Unix(5, 0)
+	var nilInt *int
+	type rec struct{ A int }
+	r := &rec{3}
+	hosts := []struct {
+		name string
+		v    any
+	}{{"*int", &i}, {"*string", &s}, {"*bool", &b}, {"*float64", &f}, {"*time.Time", &tm}, {"(*int)(nil)", nilInt}, {"*struct", r}, {"struct", rec{4}},
+		{"map", map[string]int{"a": 1}}, {"chan", make(chan int)}, {"[]int", []int{1, 2}}, {"uint8", uint8(9)}, {"complex", complex(1, 2)}}
+	for _, h := range hosts {
+		for _, how := range []string{"NewVariant", "VariantFromObject", "SetAsObject"} {
+			op := "hostobj " + how + " " + strRunes(h.name)
+			c.record(op, true)
+			c.count("host-object")
+			note := ""
+			st := safeCall(func() string {
+				var v *variants.Variant
+				switch how {
+				case "NewVariant":
+					v = variants.NewVariant(h.v)
+				case "VariantFromObject":
+					v = variants.VariantFromObject(h.v)
+				default:
+					v = variants.EmptyVariant()
+					v.SetAsObject(h.v)
+				}
+				if v.Type() != variants.Object {
+					note = fmt.Sprintf("%s(%s value) reports type %d, not Object", how, h.name, v.Type())
+					return ""
+				}
+				back := v.AsObject()
+				same := false
+				func() {
+					defer func() { recover() }() // uncomparable host values (maps, slices) are compared by their print
+					same = back == h.v
+				}()
+				if !same && fmt.Sprintf("%T %v", back, back) != fmt.Sprintf("%T %v", h.v, h.v) {
+					note = fmt.Sprintf("%s(%s value) hands back %T %v, it was given %T %v", how, h.name, back, back, h.v, h.v)
+				}
+				return ""
+			})
+			if st != "" || note != "" {
+				c.fail(Failure{Kind: "oracle", Op: op, Impl: st, Note: note})
+			}
+		}
+	}
+}
+
 func propC20(c *Ctx) {
 	propScaleVariants(c)
 	propOwnVariants(c)
+	propHostObjects(c)
 	scalars := []string{"n", "i0", "i-5", "i9223372036854775807", "l7", "l-9223372036854775808", "f3fc00000", "fNaN", "f80000000", "f00000000",
 		"d3ff8000000000000", "dNaN", "d0000000000000000", "s", "s97.98", "s233", "b1", "b0", "t0.0", "t1600000000.500", "p1500000000", "p0"}
 	arrays := []string{"a[]", "a[i1/i2]", "a[a[i1/i2]/a[s97]]", "a[s97/n/b1]", "a[a[i1]/i2]", "a[d3ff8000000000000]", "a[f80000000/d0000000000000000]"}
@@ -478,6 +530,10 @@ func propC20(c *Ctx) {
 }
 
 func replayC20(c *Ctx, op string) {
+	if strings.HasPrefix(op, "hostobj ") {
+		propHostObjects(c)
+		return
+	}
 	if strings.HasPrefix(op, "own ") {
 		propOwnVariants(c)
 		return
